@@ -44,7 +44,61 @@ fn v(name: &str, seed: u128) -> Uint128 {
 /// (contract, variant name, required role, message builder); the builder makes fresh symbolic payloads
 type Mk = Box<dyn Fn(&World, &str) -> Box<dyn FnOnce(&mut World, &str) -> Tx>>;
 
-fn variants() -> Vec<(&'static str, &'static str, Need, Mk)> {
+/// state-dependent variants: `prep` puts the deployment into the state the call is redundant /
+/// meaningful in (a closed vAMM, a paused engine, ...); `redundant`: the call asks for no change,
+/// which the contracts may refuse even from the role holder (only the non-role side is checked)
+type Prep = fn(&mut World);
+struct V {
+    contract: &'static str,
+    name: &'static str,
+    need: Need,
+    mk: Mk,
+    prep: Option<Prep>,
+    redundant: bool,
+}
+
+fn variants() -> Vec<V> {
+    let mut out: Vec<V> = base_variants().into_iter().map(|(contract, name, need, mk)| V { contract, name, need, mk, prep: None, redundant: false }).collect();
+    fn mk<F: Fn(&World, &str) -> Box<dyn FnOnce(&mut World, &str) -> Tx> + 'static>(f: F) -> Mk {
+        Box::new(f)
+    }
+    fn close_vamm(w: &mut World) {
+        assert!(w.vamm_exec(OWNER_NOW.with(|o| o.get()), 0, &VammExec::SetOpen { open: false }).ok);
+    }
+    fn pause(w: &mut World) {
+        let a = w.engine.clone();
+        assert!(w.exec(PAUSER_NOW.with(|o| o.get()), &a, &EngineExec::SetPause { pause: true }, &[]).ok);
+    }
+    let mut add = |contract: &'static str, name: &'static str, need: Need, prep: Option<Prep>, redundant: bool, mk: Mk| out.push(V { contract, name, need, mk, prep, redundant });
+    // the flag-valued entry points with BOTH flag values in BOTH states
+    add("vamm", "set_open.true-when-open", Need::OwnerOrIns, None, true, mk(|_w, _t| Box::new(move |w, who| { let a = w.vamms[0].clone(); w.exec(who, &a, &VammExec::SetOpen { open: true }, &[]) })));
+    add("vamm", "set_open.true-when-closed", Need::OwnerOrIns, Some(close_vamm), false, mk(|_w, _t| Box::new(move |w, who| { let a = w.vamms[0].clone(); w.exec(who, &a, &VammExec::SetOpen { open: true }, &[]) })));
+    add("vamm", "set_open.false-when-closed", Need::OwnerOrIns, Some(close_vamm), true, mk(|_w, _t| Box::new(move |w, who| { let a = w.vamms[0].clone(); w.exec(who, &a, &VammExec::SetOpen { open: false }, &[]) })));
+    add("engine", "set_pause.false-when-live", Need::Pauser, None, true, mk(|_w, _t| Box::new(move |w, who| { let a = w.engine.clone(); w.exec(who, &a, &EngineExec::SetPause { pause: false }, &[]) })));
+    add("engine", "set_pause.false-when-paused", Need::Pauser, Some(pause), false, mk(|_w, _t| Box::new(move |w, who| { let a = w.engine.clone(); w.exec(who, &a, &EngineExec::SetPause { pause: false }, &[]) })));
+    add("engine", "set_pause.true-when-paused", Need::Pauser, Some(pause), true, mk(|_w, _t| Box::new(move |w, who| { let a = w.engine.clone(); w.exec(who, &a, &EngineExec::SetPause { pause: true }, &[]) })));
+    // list edits that ask for no change
+    add("engine", "add_whitelist.already-listed", Need::Pauser, None, true, mk(|_w, _t| Box::new(move |w, who| { let a = w.engine.clone(); w.exec(who, &a, &EngineExec::AddWhitelist { address: ALICE.into() }, &[]) })));
+    add("engine", "remove_whitelist.not-listed", Need::Pauser, None, true, mk(|_w, _t| Box::new(move |w, who| { let a = w.engine.clone(); w.exec(who, &a, &EngineExec::RemoveWhitelist { address: "stranger".into() }, &[]) })));
+    add("insurance_fund", "add_vamm.already-registered", Need::Owner, None, true, mk(|_w, _t| Box::new(move |w, who| { let a = w.ins.clone(); let vm = w.vamms[0].to_string(); w.exec(who, &a, &InsExec::AddVamm { vamm: vm }, &[]) })));
+    add("insurance_fund", "remove_vamm.not-registered", Need::Owner, None, true, mk(|_w, _t| Box::new(move |w, who| { let a = w.ins.clone(); w.exec(who, &a, &InsExec::RemoveVamm { vamm: "stranger".into() }, &[]) })));
+    add("insurance_fund", "shutdown_vamms.all-closed", Need::Owner, Some(close_vamm), true, mk(|_w, _t| Box::new(move |w, who| { let a = w.ins.clone(); w.exec(who, &a, &InsExec::ShutdownVamms {}, &[]) })));
+    add("fee_pool", "add_token.already-listed", Need::Owner, None, true, mk(|w, _t| {
+        let token = match &w.token { Some(t) => t.to_string(), None => DENOM.to_string() };
+        Box::new(move |w, who| { let a = w.feepool.clone(); w.exec(who, &a, &PoolExec::AddToken { token }, &[]) })
+    }));
+    add("fee_pool", "remove_token.not-listed", Need::Owner, None, true, mk(|_w, _t| Box::new(move |w, who| { let a = w.feepool.clone(); w.exec(who, &a, &PoolExec::RemoveToken { token: "ujunox".into() }, &[]) })));
+    out
+}
+
+thread_local! {
+    /// current holders of the owner / pauser role in the deployment being prepared (after a role
+    /// transfer the preparation step must be sent by the new holder)
+    static OWNER_NOW: std::cell::Cell<&'static str> = std::cell::Cell::new(OWNER);
+    static PAUSER_NOW: std::cell::Cell<&'static str> = std::cell::Cell::new("pauser");
+}
+
+fn base_variants() -> Vec<(&'static str, &'static str, Need, Mk)> {
     fn mk<F: Fn(&World, &str) -> Box<dyn FnOnce(&mut World, &str) -> Tx> + 'static>(f: F) -> Mk {
         Box::new(f)
     }
@@ -222,7 +276,7 @@ fn is_auth_error(e: &str) -> bool {
 fn one(idx: usize, native: bool, transferred: bool) -> impl Fn() {
     move || {
         let all = variants();
-        let (contract, variant, need, mk) = &all[idx];
+        let V { contract, name: variant, need, mk, prep, redundant } = &all[idx];
         let mut roles = vec![Role::Owner, Role::Pauser, Role::Engine, Role::Ins, Role::Vamm, Role::Trader, Role::Stranger];
         if transferred {
             roles.push(Role::NewOwner);
@@ -238,6 +292,12 @@ fn one(idx: usize, native: bool, transferred: bool) -> impl Fn() {
                 continue;
             }
             let mut w = setup(native, contract, transferred);
+            if let Some(prep) = prep {
+                // (the vAMM's owner changes only when the vAMM's own role was transferred, etc.)
+                OWNER_NOW.with(|o| o.set(if transferred && *contract == "vamm" { "owner2" } else { OWNER }));
+                PAUSER_NOW.with(|o| o.set(if transferred && *contract == "engine" { "pauser2" } else { "pauser" }));
+                prep(&mut w);
+            }
             let who = sender_addr(&w, *role);
             let tag = format!("r{}", k);
             let call = mk(&w, &tag);
@@ -247,6 +307,9 @@ fn one(idx: usize, native: bool, transferred: bool) -> impl Fn() {
             let what = format!("{}:{} sender={:?}{}", contract, variant, role, if transferred { " after-transfer" } else { "" });
             symrt::log_event(format!("{} -> {} {}", what, t.ok, crate::sx::norm(&t.err)));
             if authorised(*need, *role, transferred, contract) {
+                if *redundant {
+                    continue;
+                }
                 prove_d("C09/role-holder-not-rejected-for-authorisation", Cond::from_bool(t.ok || !is_auth_error(&t.err)), format!("{} err={}", what, crate::sx::norm(&t.err)));
             } else {
                 prove_d("C09/non-role-sender-rejected", Cond::from_bool(!t.ok), what.clone());
@@ -294,7 +357,7 @@ pub fn scenarios(_seed: u64) -> Vec<Scenario> {
     let d = "one privileged entry point x all sender kinds {owner, pauser, engine, insurance fund, vAMM, trader, stranger (+ new owner / new pauser after a role transfer)} on fresh deployments with the repository's own price feed; payload amounts/ratios symbolic over the full range";
     let n = variants().len();
     for i in 0..n {
-        let (c, var, _, _) = &variants()[i];
+        let (c, var) = (variants()[i].contract, variants()[i].name);
         v.push(sc("C09", Tier::Quick, &format!("c09.{}.{}", c, var), d, 400, 90, one(i, false, false)));
         v.push(sc("C09", Tier::Quick, &format!("c09.{}.{}.transferred", c, var), d, 400, 90, one(i, false, true)));
         v.push(sc("C09", Tier::Thorough, &format!("c09.{}.{}.native", c, var), d, 400, 90, one(i, true, false)));
